@@ -164,25 +164,35 @@ def run_dro(case, ses):
         for mask in (MASKS if ses.tier == 'thorough' or len(seq) < 2 else MASKS[:3]):
             # decisions declared AFTER x with another event partition (none / one value per scenario / static): the
             # expansion of x must follow x's own declaration, not that of its neighbours
-            variants = [(o, t) for o in ('events-first', 'mask-first') for t in ('none', 'finest', 'static-affine')]
+            # scenario labels: positions 0..ns-1, or shifted integer labels 1..ns given as labels / as Scen objects of an
+            # ambiguity set (a Scen carries positions, not labels)
+            variants = [(o, t, lm) for o in ('events-first', 'mask-first') for t in ('none', 'finest', 'static-affine')
+                        for lm in ('pos', 'shift-label', 'shift-scen')]
             if ses.tier == 'quick':
-                variants = [('events-first', 'none'), ('mask-first', 'finest'), ('events-first', 'static-affine')]
-            for order, tail in variants:
+                variants = [('events-first', 'none', 'pos'), ('mask-first', 'finest', 'shift-label'),
+                            ('events-first', 'static-affine', 'shift-scen')]
+            for order, tail, labmode in variants:
                 with quiet():
-                    m = dro.Model(ns)
+                    m = dro.Model(ns) if labmode == 'pos' else dro.Model(list(range(1, ns + 1)))
                     z = m.rvar(3)
                     w = m.dvar(())
                     x = m.dvar(2)
+                    Fs = m.ambiguity() if labmode == 'shift-scen' else None
                     if order == 'mask-first':
                         dep = apply_mask(x, z, mask)
                     for ev in seq:
-                        x.adapt(ev if len(ev) > 1 else ev[0])
+                        if labmode == 'pos':
+                            x.adapt(ev if len(ev) > 1 else ev[0])
+                        elif labmode == 'shift-label':
+                            x.adapt([p_ + 1 for p_ in ev] if len(ev) > 1 else ev[0] + 1)
+                        else:
+                            x.adapt(Fs.loc[[p_ + 1 for p_ in ev]] if len(ev) > 1 else Fs.loc[ev[0] + 1])
                     if order == 'events-first':
                         dep = apply_mask(x, z, mask)
                     if tail == 'finest':
                         v = m.dvar(())
                         for s_ in range(1, ns):
-                            v.adapt(s_)
+                            v.adapt(s_ if labmode == 'pos' else s_ + 1)
                     elif tail == 'static-affine':
                         v = m.dvar(2)
                         v.adapt(z[0])
@@ -190,7 +200,7 @@ def run_dro(case, ses):
                         rules = m.rule_var()
                     except Exception as e:
                         rules = e
-                order = '%s tail=%s' % (order, tail)
+                order = '%s tail=%s labels=%s' % (order, tail, labmode)
                 if isinstance(rules, Exception):
                     # every declaration above is legal: the expansion into per-scenario rules must exist
                     ses.stats.obligations += 1
@@ -311,7 +321,8 @@ def run_ro(case, ses):
     z3 = z3mod()
     masks = {'none': [], 'all': [(None, None)], 'y0:z1': [(0, 1)], 'y1:z0:2': [(1, slice(0, 2))],
              'y0:z2;y1:z0': [(0, 2), (1, 0)], 'y:z1': [(None, 1)]}
-    for name, deps in [(n_, d_) for n_ in masks for d_ in ((masks[n_], 'plain'), (masks[n_], 'late-rvar'))]:
+    for name, deps in [(n_, d_) for n_ in masks for d_ in ((masks[n_], 'plain'), (masks[n_], 'late-rvar'),
+                                                            (masks[n_], 'rvar-after-adapt'))]:
         deps, variant = deps
         with quiet():
             m = ro.Model()
@@ -327,8 +338,13 @@ def run_ro(case, ses):
                 colsel = np.arange(3)[zi] if zi is not None else np.arange(3)
                 for r in rows:
                     dep[r, colsel] = 1
-            ya = y.to_affine()
             Cu = np.array([[1.0, 0.0], [0.5, 2.0]])
+            if variant == 'rvar-after-adapt':
+                # ANOTHER random variable is declared after adapt() and before the rule is used for the first time
+                u = m.rvar(2)
+                ya = y.to_affine() + Cu @ u
+            else:
+                ya = y.to_affine()
             if variant == 'late-rvar':
                 # the rule is used first, ANOTHER random variable is declared afterwards and added: the rule must not
                 # pick up any dependence on it (its coefficient array is padded to the wider layout)
@@ -337,12 +353,12 @@ def run_ro(case, ses):
         ses.stats.programs += 1
         n = m.rc_model.last
         X = pvars('X', (n,))
-        nz = 5 if variant == 'late-rvar' else 3
+        nz = 5 if variant in ('late-rvar', 'rvar-after-adapt') else 3
         Zp = pvars('Z', (nz,))
         label = 'ro-ldr mask=%s %s' % (name, variant)
         vals = rule_values(ya, X, Zp)
         znames = ['Z[%d]' % j for j in range(nz)]
-        if variant == 'late-rvar':
+        if variant in ('late-rvar', 'rvar-after-adapt'):
             for i in range(2):
                 parts = vals[i].split(znames)
                 for k in range(2):
@@ -421,7 +437,7 @@ def run_mix(case, ses):
 
 # ------------------------------------------------------------------ (d) illegal declarations
 def run_illegal(case, ses):
-    from rsome import dro, ro
+    from rsome import dro, ro, E
 
     def expect_raise(tag, fn):
         ses.stats.obligations += 1
@@ -429,6 +445,11 @@ def run_illegal(case, ses):
         try:
             with quiet():
                 fn()
+        except (NameError, ImportError, AttributeError) as e:
+            if isinstance(e, (NameError, ImportError)):
+                raise HarnessError('illegal-declaration scenario is broken: %s: %s' % (tag, e))
+            ses.stats.discharged += 1
+            return
         except Exception:
             ses.stats.discharged += 1
             return
@@ -522,6 +543,59 @@ def run_illegal(case, ses):
         z2 = m2.rvar(2)
         x = m.dvar(2)
         x.adapt(z2)
+    def integer_array_affine():
+        m = dro.Model(2)
+        z = m.rvar(2)
+        x = m.dvar(2, vtype='BB')
+        x.adapt(z)
+
+    def integer_entry_affine():
+        m = dro.Model(2)
+        z = m.rvar(2)
+        x = m.dvar(2, vtype='CI')
+        x[1].adapt(z[0])
+
+    def ldr_adapt_to_decision():
+        m = ro.Model()
+        z = m.rvar(2)
+        x = m.dvar(2)
+        y = m.ldr(2)
+        y.adapt(x[0])
+
+    def dro_event_adapt_after_formulation():
+        m = dro.Model(2)
+        z = m.rvar()
+        x = m.dvar()
+        F = m.ambiguity()
+        F.suppset(z >= 0, z <= 1)
+        m.minsup(E(x), F)
+        m.st(x >= z)
+        m.do_math()
+        x.adapt(1)
+
+    def dro_affine_adapt_after_formulation():
+        m = dro.Model(2)
+        z = m.rvar()
+        x = m.dvar()
+        F = m.ambiguity()
+        F.suppset(z >= 0, z <= 1)
+        m.minsup(E(x), F)
+        m.st(x >= z)
+        m.do_math()
+        x.adapt(z)
+    def redeclare_scenario_complete_partition():
+        m = dro.Model(4)
+        x = m.dvar()
+        x.adapt([0, 1])
+        x.adapt([2, 3])
+        x.adapt(0)
+    for tag, fn in [('re-declare a scenario after the partition is complete', redeclare_scenario_complete_partition),
+                    ('affine adaptation of an array declared with per-element integer types', integer_array_affine),
+                    ('affine adaptation of the integer entry of a mixed array', integer_entry_affine),
+                    ('LDR adapted to a decision variable', ldr_adapt_to_decision),
+                    ('dro event-wise adaptation declared after the model was formulated', dro_event_adapt_after_formulation),
+                    ('dro affine adaptation declared after the model was formulated', dro_affine_adapt_after_formulation)]:
+        expect_raise(tag, fn)
     for tag, fn in [('re-declare scenario', redeclare_scenario), ('re-declare dependency', redeclare_dependency),
                     ('affine adaptation of integers', integer_affine), ('affine adaptation of a binary slice', binary_affine_slice),
                     ('LDR adaptation after use', ldr_after_use), ('LDR re-declared dependency', ldr_redeclare),
